@@ -433,7 +433,8 @@ nfa, with no epsilon transition
         from pyformlang.regular_expression import Regex
         if len(self._start_state) > 1:
             return self._to_single_start_state().to_regex()
-        enfas = [self.copy() for _ in self._final_states]
+        escaped = self._get_copy_with_escaped_symbols()
+        enfas = [escaped.copy() for _ in self._final_states]
         final_states = list(self._final_states)
         for i in range(len(self._final_states)):
             for j in range(len(self._final_states)):
@@ -449,6 +450,22 @@ nfa, with no epsilon transition
                 regex_l.append(regex_sub)
         res = "+".join(regex_l)
         return Regex(res)
+
+    def _get_copy_with_escaped_symbols(self) -> "EpsilonNFA":
+        """ A copy where a symbol spelt like an operator of the regex syntax \
+        is written as this syntax wants it: escaped """
+        from pyformlang.regular_expression.regex_objects import \
+            SPECIAL_SYMBOLS
+        enfa = EpsilonNFA(states=set(self._states),
+                          start_state=set(self._start_state),
+                          final_states=set(self._final_states))
+        for s_from, symb_by, s_to in self:
+            value = symb_by.value
+            if symb_by != Epsilon() and isinstance(value, str) and \
+                    (value in SPECIAL_SYMBOLS or value == " "):
+                symb_by = Symbol("\\" + value)
+            enfa.add_transition(s_from, symb_by, s_to)
+        return enfa
 
     def _to_single_start_state(self) -> "EpsilonNFA":
         """ Get an equivalent epsilon NFA with a single start state, which \
